@@ -29,7 +29,7 @@ ASSUMPTIONS = ["nvmon.ref exact reference for vertex positions (uv within 1e-12 
 FLOORS = {'quick': {'topology': 150, 'vertex-on-surface': 1500, 'quads': 100, 'trim-cells': 1000, 'obj': 60, 'off': 60, 'stl-ascii': 60,
                     'stl-binary': 60, 'container': 30},
           'thorough': {'topology': 1500, 'vertex-on-surface': 15000, 'trim-cells': 10000}}
-MANDATORY_TAGS = ['far-from-origin', 'export:spacing-after-tessellation', 'mesh:kept-across-edit', 'partial-evaluate-before', 'spacing1', 'spacing>=2', 'spacing>=3', 'spacing:not-dividing', 'rational', 'trim:freeform', 'trim:spline', 'trim:reversed', 'trim:clockwise', 'trim:non-unit-domain', 'trim:added-after-tessellation', 'trim:setter-replaces', 'tessellator:reinstalled-after-edit', 'container', 'container:tessellator-replaced', 'quad:as-surface-tessellator', 'export:quad-mesh',
+MANDATORY_TAGS = ['partial-evaluate-before:iso', 'far-from-origin', 'export:spacing-after-tessellation', 'mesh:kept-across-edit', 'partial-evaluate-before', 'spacing1', 'spacing>=2', 'spacing>=3', 'spacing:not-dividing', 'rational', 'trim:freeform', 'trim:spline', 'trim:reversed', 'trim:clockwise', 'trim:non-unit-domain', 'trim:added-after-tessellation', 'trim:setter-replaces', 'tessellator:reinstalled-after-edit', 'container', 'container:tessellator-replaced', 'quad:as-surface-tessellator', 'export:quad-mesh',
                   'quad', 'non-unit-domain', 'export:file']
 TECHNIQUE = ("runtime monitoring: structural + exact-geometric oracle over every tessellation the workload produces (ids, indices, "
              "orientation, exact area cover, edge incidence, Euler characteristic, vertex = surface(uv)), cell-classification oracle "
@@ -358,7 +358,13 @@ def check_plain(case, ctx):
     if rng.random() < 0.3:
         # the surface was sampled on a part of its domain before (its cached points are not the grid over the whole domain)
         ctx.tag('partial-evaluate-before')
-        o.evaluate(start_u=rng.uniform(0.1, 0.4), stop_u=rng.uniform(0.6, 0.9), start_v=rng.uniform(0.1, 0.4), stop_v=rng.uniform(0.6, 0.9))
+        kwp = dict(start_u=rng.uniform(0.1, 0.4), stop_u=rng.uniform(0.6, 0.9), start_v=rng.uniform(0.1, 0.4), stop_v=rng.uniform(0.6, 0.9))
+        if rng.random() < 0.4:
+            # an iso-parametric line: start == stop in one direction (the cached points are 1 x n, not nu x nv)
+            d_ = rng.choice('uv')
+            kwp['start_' + d_] = kwp['stop_' + d_] = rng.choice([0.0, 1.0, 0.5, kwp['start_' + d_]])
+            ctx.tag('partial-evaluate-before:iso')
+        o.evaluate(**kwp)
     o.tessellate(vertex_spacing=sp)
     V, Fc = o.vertices, o.faces
     # every sp-th sample per direction, and always the last one
@@ -666,6 +672,21 @@ def check_container(case, ctx):
     ctx.check(len(V) == len(els) * n * n and len(Fc) == len(els) * 2 * (n - 1) * (n - 1), 'container/sample-size',
               'container of %d surfaces with sample_size = %d: %d vertices / %d faces, documented %d / %d' %
               (len(els), n, len(V), len(Fc), len(els) * n * n, len(els) * 2 * (n - 1) * (n - 1)), what='container')
+    # tessellate(delta=False) keeps the surfaces' own sampling; a plain tessellate() afterwards is another request (the container's sampling)
+    es3 = [G.build(sd) for sd in case['shapes']]
+    m3 = max(2, n - 2)
+    for e_ in es3:
+        e_.sample_size = m3
+    ms3 = multi.SurfaceContainer(*es3)
+    ms3.sample_size = n
+    ms3.tessellate(delta=False)
+    nv_own = len(ms3.vertices)
+    ms3.tessellate()
+    ctx.tag('container:delta-flag-then-default')
+    ctx.check(nv_own == len(es3) * m3 * m3 and len(ms3.vertices) == len(es3) * n * n, 'container/stale-after-other-request',
+              'container of %d surfaces sampled %d x %d, container sample_size %d: tessellate(delta=False) gives %d vertices, tessellate() '
+              'afterwards %d (expected %d, then %d)' % (len(es3), m3, m3, n, nv_own, len(ms3.vertices), len(es3) * m3 * m3, len(es3) * n * n),
+              what='container')
     if rng.random() < 0.5 and n >= 6:
         # replacing the tessellator of a container whose mesh has been read: the new tessellator's mesh must be reported
         from geomdl import tessellate, freeform
